@@ -453,12 +453,19 @@ func runBS(c *Ctx, mode string) {
 		if tail == 0 { // operations on a closed stream
 			ops = append(ops, bsOp{kind: "ws", value: 1, count: 3}, bsOp{kind: "wa", count: 8, data: []byte{1}}, bsOp{kind: "wc"}, bsOp{kind: "wb", value: 1})
 		}
+		tailKind := r.Intn(6)
+		if tailKind == 2 && len(rops) > 1 { // close the reader in the middle of the data (bits still cached in the accumulator)
+			rops = rops[:r.Intn(len(rops))]
+		}
 		ops = append(ops, rops...)
-		switch r.Intn(5) {
+		switch tailKind {
 		case 0: // read past the end
 			ops = append(ops, bsOp{kind: "rs", count: uint(r.Range(1, 64))}, bsOp{kind: "rs", count: 64}, bsOp{kind: "ra", count: uint(r.Range(1, 200))})
 		case 1:
 			ops = append(ops, bsOp{kind: "rc"}, bsOp{kind: "rs", count: 8}, bsOp{kind: "ra", count: 16}, bsOp{kind: "rc"})
+		case 2:
+			ops = append(ops, bsOp{kind: "rc"}, bsOp{kind: "rb"}, bsOp{kind: "rs", count: uint(r.Range(1, 7))}, bsOp{kind: "rs", count: uint(r.Range(8, 64))},
+				bsOp{kind: "ra", count: uint(r.Range(1, 100))}, bsOp{kind: "rc"}, bsOp{kind: "rb"})
 		}
 		check := true
 		switch mode {
